@@ -338,3 +338,167 @@ func appendTarget(info *types.Info, lhs, rhs ast.Expr) (types.Object, []ast.Expr
 	}
 	return lo, call.Args[1:]
 }
+
+// SuccessOnlyFrom decides: the function (single error result) returns nil only as the nil result of one of the
+// `granting` calls. Every return is classified by the origin of a possibly-nil value:
+//   - a surely non-nil expression (error constructor, composite literal, package-level sentinel): fine;
+//   - the literal nil: every path to it passes a granting call, and it is unreachable from the last granting
+//     call with that call's error refined to non-nil;
+//   - an error variable: for each of its definitions that can be nil (zero declaration, nil, a call result) and
+//     that reaches the return with the variable still nil, the definition must be a granting call.
+// It returns one message per offending return ("" = holds) keyed by return ordinal.
+func (r *RuleCtx) SuccessOnlyFrom(granting CallPred) (msgs []string, nGrant int) {
+	info := r.Info
+	f := r.F
+	grantPts := r.Calls(granting)
+	nGrant = len(grantPts)
+	isGrant := isPt(grantPts)
+	surelyNonNil := func(e ast.Expr) bool {
+		e = ast.Unparen(e)
+		switch x := e.(type) {
+		case *ast.CallExpr:
+			if isCall(info, x, "fmt.Errorf", "errors.New") {
+				return true
+			}
+			if tv, ok := info.Types[x.Fun]; ok && tv.IsType() && len(x.Args) == 1 {
+				return false
+			}
+			return false
+		case *ast.UnaryExpr:
+			return x.Op == token.AND
+		case *ast.CompositeLit:
+			return true
+		case *ast.Ident, *ast.SelectorExpr:
+			if v, ok := objOf(info, x).(*types.Var); ok && !v.IsField() && v.Pkg() != nil && v.Parent() == v.Pkg().Scope() {
+				return true // package-level sentinel error
+			}
+		}
+		return false
+	}
+	for _, blk := range f.G.Blocks {
+		if !blk.Live {
+			continue
+		}
+		pt := Pt{blk, len(blk.Nodes)}
+		k, ret := f.Exit(pt)
+		if k == ExitFallOff {
+			msgs = append(msgs, "the function can fall off its end")
+			continue
+		}
+		if k != ExitReturn || ret == nil {
+			continue
+		}
+		if len(ret.Results) != 1 {
+			msgs = append(msgs, "undecided: return with "+itoa(len(ret.Results))+" results (named results are not modelled)")
+			continue
+		}
+		e := ast.Unparen(ret.Results[0])
+		line := "line " + itoa(r.C.P.Fset.Position(ret.Pos()).Line)
+		retPt := func(q Pt) bool { return q == pt }
+		switch {
+		case surelyNonNil(e):
+			msgs = append(msgs, "")
+		case isNilIdent(info, e):
+			msg := ""
+			if path, found := f.Reach(Query{From: r.Entry(), Inclusive: true, Target: retPt, Avoid: isGrant}); found {
+				msg = "`return nil` (" + line + ") is reachable without any granting call: " + f.Describe(path)
+			}
+			for _, gp := range grantPts {
+				call := r.CallAt(gp, granting)
+				eo := errVarAssigned(info, gp.Node(), call)
+				if eo == nil {
+					if rs, ok := gp.Node().(*ast.ReturnStmt); ok && len(rs.Results) == 1 && ast.Unparen(rs.Results[0]) == call {
+						continue
+					}
+					msg = "the result of the granting call at line " + itoa(r.Line(gp)) + " is not kept"
+					continue
+				}
+				if path, found := f.ReachRefined(gp, eo, false, false, retPt, isGrant); found {
+					msg = "`return nil` (" + line + ") is reachable after the granting call failed: " + f.Describe(path)
+				}
+			}
+			msgs = append(msgs, msg)
+		default:
+			if call, ok := e.(*ast.CallExpr); ok && granting(info, call) {
+				msgs = append(msgs, "")
+				continue
+			}
+			v, ok := objOf(info, e).(*types.Var)
+			if !ok || v.IsField() {
+				msgs = append(msgs, "undecided: `return "+exprStr(e)+"` ("+line+") is neither nil, an error constructor, a sentinel nor a local error variable")
+				continue
+			}
+			msg := ""
+			// nilOrigins: the non-granting definitions through which variable w can be nil at point `at`
+			var nilOrigins func(w *types.Var, at func(Pt) bool, depth int) string
+			nilOrigins = func(w *types.Var, at func(Pt) bool, depth int) string {
+				res := ""
+				for _, dp := range f.Points() {
+					n := dp.Node()
+					if n == nil {
+						continue
+					}
+					assigned := false
+					var rhs ast.Expr
+					switch s := n.(type) {
+					case *ast.ValueSpec:
+						for i, nm := range s.Names {
+							if info.Defs[nm] == w {
+								assigned = true
+								if i < len(s.Values) {
+									rhs = s.Values[i]
+								}
+							}
+						}
+					case *ast.AssignStmt:
+						for i, l := range s.Lhs {
+							if objOf(info, l) == w {
+								assigned = true
+								if len(s.Rhs) == len(s.Lhs) {
+									rhs = s.Rhs[i]
+								} else if len(s.Rhs) == 1 {
+									rhs = s.Rhs[0]
+								}
+							}
+						}
+					}
+					if !assigned || (rhs != nil && surelyNonNil(rhs)) {
+						continue
+					}
+					if rc, ok := ast.Unparen(rhs).(*ast.CallExpr); ok && granting(info, rc) {
+						continue
+					}
+					others := func(q Pt) bool { return q.Node() != nil && assignsObj(info, q.Node(), w) }
+					path, found := f.ReachRefined(dp, w, true, false, at, others)
+					if !found {
+						continue
+					}
+					what := "its zero value"
+					if rhs != nil {
+						what = exprStr(rhs)
+						// a copy of another local error variable: nil only if that one can be nil here
+						if src, ok := objOf(info, rhs).(*types.Var); ok && !src.IsField() && src != w && depth < 3 && src.Pos() > r.FI.Decl.Body.Pos() {
+							sub := nilOrigins(src, func(q Pt) bool { return q == dp }, depth+1)
+							if sub == "" {
+								continue
+							}
+							res = sub
+							continue
+						}
+					}
+					res = "`" + w.Name() + "` can be nil – success – as " + what + " (line " + itoa(r.Line(dp)) + "), not as the result of a granting call: " + f.Describe(path)
+				}
+				return res
+			}
+			if m := nilOrigins(v, retPt, 0); m != "" {
+				msg = "`return " + v.Name() + "` (" + line + "): " + m
+			}
+			// parameters and results are not definitions we can see
+			if v.Pos() < r.FI.Decl.Body.Pos() {
+				msg = "undecided: `return " + v.Name() + "` returns a parameter/named result"
+			}
+			msgs = append(msgs, msg)
+		}
+	}
+	return msgs, nGrant
+}
